@@ -21,6 +21,7 @@ import Tengo.Drivers.C06
 import Tengo.Drivers.C08
 import Tengo.Drivers.C04
 import Tengo.Drivers.VM
+import Tengo.Drivers.Comp
 /-!
 Line-protocol driver: one S-expression `(cmd arg…)` per input line, one answer
 line per input line. The only `partial def` of the project is the IO loop.
@@ -49,7 +50,8 @@ def allHandlers : List (String × (List Sexp → String)) :=
   Tengo.Drivers.VM.handlers ++
   Tengo.Drivers.C06.handlers ++
   Tengo.Drivers.C08.handlers ++
-  Tengo.Drivers.C04.handlers
+  Tengo.Drivers.C04.handlers ++
+  Tengo.Drivers.Comp.handlers
 
 def answer (line : String) : String :=
   match Sexp.parse line with
